@@ -19,7 +19,7 @@ import (
 func init() {
 	Register(&Rule{
 		ID:    "R-FLAGPASS",
-		Doc:   "every codec-typed closure of proto's wrapper constructors (slice*FuncOf, pointer*FuncOf) that calls the wrapped codec's size/encode/decode: the flags argument of that call depends on the closure's own flags parameter (data flow through |, &, conversions), so that the zigzag bit set from the field's tag reaches the element codec; wrappers whose elements take their flags from elsewhere (struct fields from their descriptors, map keys and values) are listed with the reason",
+		Doc:   "every codec-typed closure of proto's wrapper constructors (slice*FuncOf, pointer*FuncOf) that calls the wrapped codec's size/encode/decode: the flags argument of that call depends on the closure's own flags parameter (data flow through |, &, conversions), so that the zigzag bit set from the field's tag reaches the element codec; in the struct codecs (struct*FuncOf) the flags argument of every field codec call goes through f.makeFlags; wrappers whose elements take their flags from elsewhere (map keys and values) are listed with the reason",
 		Props: []string{"C12", "C03"},
 		Min:   map[string]int{"C12": 6, "C03": 6},
 		Run:   runFlagPass,
@@ -82,6 +82,48 @@ func runFlagPass(c *core.Ctx) []core.Obligation {
 				b.ok(key, c.InstrPos(ci), "the element codec receives flags derived from the wrapper's own")
 			} else {
 				b.bad(key, c.InstrPos(ci), fmt.Sprintf("%s calls the wrapped codec with flags (%s) that do not depend on its own flags parameter: the field's zigzag option never reaches the elements, so a repeated (or pointer) sint32/sint64 field is sized, written and read as a plain varint — not the protobuf encoding of that field", name, texpr(farg, 0)))
+			}
+		}
+	}
+	// the struct codecs hand each field's codec the flags of that field: f.makeFlags(flags) adds
+	// the zigzag bit of the field's tag in the size, encode and decode functions alike
+	for _, fn := range fns {
+		name := shortName(fn)
+		if fn.Blocks == nil || fn.Parent() == nil || !strings.HasPrefix(name, "proto.") {
+			continue
+		}
+		parent := fn.Parent().Name()
+		if !strings.HasPrefix(parent, "struct") || !strings.HasSuffix(parent, "FuncOf") {
+			continue
+		}
+		count := 0
+		for _, ci := range callsIn(fn) {
+			cc := ci.Common()
+			if staticCallee(cc) != nil || cc.IsInvoke() {
+				continue
+			}
+			if _, isB := cc.Value.(*ssa.Builtin); isB {
+				continue
+			}
+			var farg ssa.Value
+			for _, a := range cc.Args {
+				if strings.HasSuffix(a.Type().String(), "proto.flags") {
+					farg = a
+				}
+			}
+			if farg == nil {
+				continue
+			}
+			n++
+			count++
+			key := fmt.Sprintf("flagpass:%s:%s#%d", closureIndex.ReplaceAllString(name, ""), calleeLabel(cc), count)
+			if dependsOn(farg, func(x ssa.Value) bool {
+				call, ok := x.(*ssa.Call)
+				return ok && strings.HasSuffix(calleeName(call.Common()), "structField).makeFlags")
+			}) {
+				b.ok(key, c.InstrPos(ci), "the field's codec receives f.makeFlags(flags)")
+			} else {
+				b.bad(key, c.InstrPos(ci), fmt.Sprintf("%s calls a field's codec with flags (%s) that did not go through f.makeFlags: the zigzag option of the field's tag does not reach this call while it reaches its siblings, so a (repeated) sint32/sint64 field is sized as a plain varint and written zig-zag — Marshal fails with a short buffer, or pads the message with zero bytes", name, texpr(farg, 0)))
 			}
 		}
 	}
